@@ -7,10 +7,11 @@ CONSTANTS
   MaxH = 100000
   MaxOC = 1
   MaxSC = 3
-  MaxEvents = 2
+  MaxEvents = 1
   Sizes = {1000}
   Durs = {3600}
   Timeouts = {300, 1800, 3600}
+  UpdOps = {}
   Replicas = {1, 2, 3}
 PROPERTY EventuallySettled
 PROPERTY EventuallyGone
